@@ -1,7 +1,7 @@
 """C07 — specification rejected iff ill-formed; every terminal gets exactly one definition."""
 from .speccommon import *
 
-LEVEL = "other"
+LEVEL = "proof"
 
 
 def regex_ok(v):
